@@ -12,7 +12,7 @@ package main
 //@ // msgOK: a message as the collecting process delivers it: a set of data records or of template records whose
 //@ // elements are well typed (dynamic type matches DataType) and of kinds the decoder supports
 //@ pure cRecOK(r entities.Record) bool = ((is(r, *entities.dataRecord) && r.(*entities.dataRecord) != nil) || (is(r, *entities.templateRecord) && r.(*entities.templateRecord) != nil))
-//@     && (forall j in [0, len(relems(r))): wfElem(relems(r)[j]) && dt(relems(r)[j]) != DateTimeMicroseconds && dt(relems(r)[j]) != DateTimeNanoseconds && 0 <= dt(relems(r)[j]) && dt(relems(r)[j]) <= String)
+//@     && (forall j in [0, len(relems(r))): wfElem(relems(r)[j]) && supportedKind(dt(relems(r)[j])))
 //@ pure msgOK(m *entities.Message) bool = m != nil && is(m.set, *entities.set) && mset(m) != nil && (forall i in [0, len(mset(m).records)): cRecOK(mset(m).records[i]))
 
 //@ func addIPFIXMessage(msg) ()
